@@ -23,6 +23,10 @@
 (*                                                                                                       *)
 (* Counter-bounded loops ("KMEANS": it <= 100 in clustering.c shouldStop; "NM": iter_ < iter in            *)
 (* optimization.c): the variant is the counter itself, whatever the data classes are.                      *)
+(*                                                                                                       *)
+(* Two assumptions of this module are made explicit (and refuted where the code does not meet them) in      *)
+(* NipalsMT.tla: "NaN products skipped" holds for the kernel a fit REACHES under its processor count, and    *)
+(* "every pass on a finite vector contracts" fails for PLS latent variables built on rounding residue.      *)
 EXTENDS Naturals, TLC
 CONSTANTS MaxRank, MaxNpc, MaxIter, Guarded, Sites
 ASSUME MaxIter >= 2
@@ -75,6 +79,14 @@ IterConv(k) == /\ phase = "iter" /\ tcls = "Fin" /\ k >= 1 /\ left >= k /\ (site
                /\ left' = left - (k - 1)
                /\ UNCHANGED <<site, rank, npc, noise, cblk, tcls, first>>
 
+\* PLS with several responses, beyond the defined latent variables (X or Y carries rounding noise only): k regular passes, the last of which
+\* leaves u null / non-finite (q = Y't / t't = 0 exactly -> DVectNorm gives 0/0 -> u = NaN); the guard at the top of the next pass then
+\* stores a null latent variable.  The hook sees the k passes, not the guard.  Within the rank Y't # 0, so this cannot happen there.
+IterDie(k) == /\ phase = "iter" /\ tcls = "Fin" /\ site = "PLS" /\ Guarded /\ pc >= rank /\ k >= 1 /\ left >= k
+              /\ a' = "Fin" /\ b' = "Fin" /\ conv' = "Big" /\ tick' = (tick + k) % 2 /\ left' = left - (k - 1)
+              /\ Store("zero")
+              /\ UNCHANGED <<site, rank, npc, noise, cblk, tcls, first, bvar>>
+
 \* one pass on a null / non-finite vector when there is no guard: class transfer transcribed from the C code
 NullNext(s, c) == CASE s = "PCA"  -> {"NaN"}                                     \* t = 0 / NaN
                     [] s = "CPCA" -> {"Zero"}                                    \* every NaN product is skipped: t_new = 0 again
@@ -106,6 +118,7 @@ CntExhaust == /\ phase = "loop" /\ left = 0 /\ phase' = "done"
 Next == \/ \E c \in {"Fin", "Zero", "XZero"} : Start(c)
         \/ \E k \in 1..MaxIter : IterCont(k)
         \/ \E k \in 1..MaxIter : IterConv(k)
+        \/ \E k \in 1..MaxIter : IterDie(k)
         \/ IterNull \/ GuardStop \/ Finish
         \/ CntStart \/ CntPass \/ CntExhaust
 Spec == Init /\ [][Next]_vars
